@@ -38,21 +38,25 @@ typedef struct { size_t sz; int n; } cnt_t;
 static void cnt_cb(void *p, size_t size, uint32_t id, const void *site, void *ud) { (void)p; (void)id; (void)site; cnt_t *c = (cnt_t *)ud; if (size == c->sz) c->n++; }
 static int count_size(size_t sz) { cnt_t c = { sz, 0 }; heap_iter_live(cnt_cb, &c); return c.n; }
 
-/* black-box probe of the static header pool at quiescence: 64 headers fit without a heap request, the 65th needs one */
-static int header_slot_probe(const lib_t *L) {
+/* black-box probe of the header pool at quiescence: how many view headers can be created before the library asks the heap for
+ * more.  Calibrated on the pristine library at the start of the run (no assumption about the pool's size or block size); a
+ * smaller number later means that something the program freed still occupies a slot. */
+static int header_room(const lib_t *L) {
   if (!L->mzdcache) return 0;
-  int base = count_size(sizeof(mzd_t) * 64 + 64);
   mzd_t *M = L->mzd_init(1, 64);
-  mzd_t *W[64];
-  int bad = 0;
-  for (int i = 0; i < 63; i++) W[i] = L->mzd_init_window(M, 0, 0, 1, 64);
-  if (count_size(sizeof(mzd_t) * 64 + 64) != base) bad = 1; /* a slot of the static block is still occupied by something the program freed */
-  W[63] = L->mzd_init_window(M, 0, 0, 1, 64);
-  if (!bad && count_size(sizeof(mzd_t) * 64 + 64) != base + 1) bad = 2;
-  for (int i = 63; i >= 0; i--) L->mzd_free(W[i]);
+  enum { CAP = 300 };
+  mzd_t *W[CAP];
+  size_t base = heap_live_count();
+  int n = 0, room = CAP;
+  for (; n < CAP; n++) {
+    W[n] = L->mzd_init_window(M, 0, 0, 1, 64);
+    if (heap_live_count() != base) { room = n; n++; break; }
+  }
+  for (int i = n - 1; i >= 0; i--) L->mzd_free(W[i]);
   L->mzd_free(M);
-  return bad;
+  return room;
 }
+static int g_header_room = -1;
 
 static int viol, viol_world, viol_line;
 static char viol_note[200];
@@ -96,6 +100,9 @@ static void child_run(void *ud) {
   }
   uint64_t out0 = 0;
   int have0 = 0;
+  L->m4ri_mmc_cleanup();
+  g_header_room = header_room(L); /* calibration on the pristine library */
+  L->m4ri_mmc_cleanup();
   for (int k = 0; k < nworlds && !viol; k++) {
     /* world configuration */
     int fill = FILL_ZERO, rec = RECYCLE_OFF;
@@ -166,8 +173,8 @@ static void child_run(void *ud) {
     if (hv.kind != HV_NONE) { viol_site = (uint64_t)(uintptr_t)hv.site; flag(HX_INVALID_FREE, k, -1, hv.kind == HV_DOUBLE_FREE ? "double free" : "free of unknown pointer"); }
     /* C11: every temporary released */
     if (!viol) {
-      int sp = header_slot_probe(L);
-      if (sp) flag(HX_HEADER_SLOT_LEAK, k, -1, sp == 1 ? "static header pool has an occupied slot although the program freed everything" : "header pool did not grow at the 65th header");
+      int room = header_room(L);
+      if (room < g_header_room) { char b[140]; snprintf(b, sizeof b, "header pool has room for %d headers before it grows, %d on the pristine library: a slot is still occupied although the program freed everything", room, g_header_room); flag(HX_HEADER_SLOT_LEAK, k, -1, b); }
     }
     L->m4ri_mmc_cleanup();
     if (!viol && (heap_live_count() != live0 || heap_live_digest() != dig0)) {
@@ -411,7 +418,7 @@ static int cmd_worker(int argc, char **argv) {
     if (eng_now() - t0 > budget) { printf("B idx=%llu budget exhausted\n", (unsigned long long)idx); break; }
     sb_reset(&sb);
     child_res_t cr;
-    if (illmode) { gen_ill(eng_run_seed(seed, "ill", idx), idx, &sb); eng_write_file(cur, sb.s); illarg_t a = { sb.s }; eng_fork_run(ill_child, &a, errpath, 120, &cr); }
+    if (illmode) { gen_ill(eng_run_seed(seed, "ill", idx), idx, &sb); eng_write_file(cur, sb.s); illarg_t a = { sb.s }; eng_fork_run(ill_child, &a, errpath, 30, &cr); }
     else {
       gen_program(eng_run_seed(seed, "hist", idx), idx, tier, &sb);
       eng_write_file(cur, sb.s);
@@ -422,7 +429,7 @@ static int cmd_worker(int argc, char **argv) {
         continue;
       }
       runarg_t a = { sb.s };
-      eng_fork_run(child_run, &a, errpath, 300, &cr);
+      eng_fork_run(child_run, &a, errpath, 90, &cr);
     }
     const char *prop;
     const char *cls = classify(&cr, illmode, &prop);
@@ -457,8 +464,8 @@ static int cmd_exec(int argc, char **argv) {
   cov = (hcov_t *)SIM_SHARED_EXT;
   int ill = strstr(text, "illdim ") != NULL && !strstr(text, "probe ");
   child_res_t cr;
-  if (ill) { illarg_t a = { text }; eng_fork_run(ill_child, &a, errpath, 120, &cr); }
-  else { runarg_t a = { text }; eng_fork_run(child_run, &a, errpath, 300, &cr); }
+  if (ill) { illarg_t a = { text }; eng_fork_run(ill_child, &a, errpath, 30, &cr); }
+  else { runarg_t a = { text }; eng_fork_run(child_run, &a, errpath, 90, &cr); }
   const char *prop;
   const char *cls = classify(&cr, ill, &prop);
   char buf[300];
